@@ -269,3 +269,123 @@ func ZZConcurrent() {
 	}
 	rt.Assert("c17-linearizable", rt.Or(match(a, b), match(b, a)))
 }
+
+// ZZHold: bytes handed out by a read stay what they were: a value obtained by get / gete /
+// gat is compared again after later append / prepend / set / delete commands on the same key
+// (the handler hands out its stored slice; a later command must not write into it).
+func ZZHold() {
+	h, _, _ := zzWorld(0)
+	key := func() []byte { return append([]byte(nil), model.Keys[0]...) }
+	v0 := rt.Bytes("v0", 2)
+	h.Set(common.SetRequest{Key: key(), Data: append([]byte(nil), v0...), Flags: 1})
+	// grow the value first (an append leaves spare capacity behind the stored bytes)
+	sfx := rt.Bytes("suffix", 1)
+	h.Append(common.SetRequest{Key: key(), Data: append([]byte(nil), sfx...)})
+	want := append(append([]byte(nil), v0...), sfx...)
+	var held []byte
+	switch rt.Choice("reader", 3) {
+	case 0:
+		out, _ := h.Get(common.GetRequest{Keys: [][]byte{key()}, Opaques: []uint32{0}, Quiet: []bool{false}})
+		for r := range out {
+			held = r.Data
+		}
+	case 1:
+		out, _ := h.GetE(common.GetRequest{Keys: [][]byte{key()}, Opaques: []uint32{0}, Quiet: []bool{false}})
+		for r := range out {
+			held = r.Data
+		}
+	case 2:
+		r, _ := h.GAT(common.GATRequest{Key: key(), Exptime: 0})
+		held = r.Data
+	}
+	rt.Assert("c17-read-returns-the-value", len(held) == len(want) && rt.BytesEq(held, want))
+	d := rt.Bytes("d", 1)
+	switch rt.Choice("later", 4) {
+	case 0:
+		h.Prepend(common.SetRequest{Key: key(), Data: append([]byte(nil), d...)})
+	case 1:
+		h.Append(common.SetRequest{Key: key(), Data: append([]byte(nil), d...)})
+	case 2:
+		h.Set(common.SetRequest{Key: key(), Data: append([]byte(nil), d...)})
+	case 3:
+		h.Delete(common.DeleteRequest{Key: key()})
+	}
+	rt.Reach("held")
+	rt.Assert("c17-bytes-handed-out-are-not-modified-later", len(held) == len(want) && rt.BytesEq(held, want))
+}
+
+// ZZConcurrent2Keys: a multi-key get (or gete) on one connection against a writer on another,
+// every interleaving at lock operations: both finish (no deadlock), the reads are each either
+// before or after the write.
+func ZZConcurrent2Keys() {
+	h, ref, now := zzWorld(2)
+	hb0, _ := New()
+	hB := hb0.(*Handler)
+	rt.Guard(h.data, nil, "c17-map")
+	kindW := []int{zSet, zDelete, zAppend}[rt.Choice("w.cmd", 3)]
+	wkey := rt.Choice("w.key", 2)
+	data := rt.Bytes("w.data", 1)
+	gete := rt.Choice("gete", 2) == 1
+	var hits [2]bool
+	var got [2][]byte
+	var wg sync.WaitGroup
+	wg.Add(2)
+	go func() {
+		defer wg.Done()
+		req := common.GetRequest{Keys: [][]byte{append([]byte(nil), model.Keys[0]...), append([]byte(nil), model.Keys[1]...)}, Opaques: []uint32{0, 1}, Quiet: []bool{false, false}}
+		n := 0
+		if gete {
+			out, _ := h.GetE(req)
+			for r := range out {
+				if n < 2 {
+					hits[n], got[n] = !r.Miss, r.Data
+				}
+				n++
+			}
+		} else {
+			out, _ := h.Get(req)
+			for r := range out {
+				if n < 2 {
+					hits[n], got[n] = !r.Miss, r.Data
+				}
+				n++
+			}
+		}
+	}()
+	go func() {
+		defer wg.Done()
+		k := append([]byte(nil), model.Keys[wkey]...)
+		switch kindW {
+		case zSet:
+			hB.Set(common.SetRequest{Key: k, Data: append([]byte(nil), data...)})
+		case zDelete:
+			hB.Delete(common.DeleteRequest{Key: k})
+		case zAppend:
+			hB.Append(common.SetRequest{Key: k, Data: append([]byte(nil), data...)})
+		}
+	}()
+	wg.Wait()
+	rt.Reach("both-done")
+	after := ref.Clone("after")
+	switch kindW {
+	case zSet:
+		after.Set(wkey, data, 0, 0, now)
+	case zDelete:
+		after.Delete(wkey)
+	case zAppend:
+		after.Append(wkey, data)
+	}
+	for i := 0; i < 2; i++ {
+		is := func(s *model.Store) bool {
+			hit, d, _ := s.Get(i)
+			if hit != hits[i] {
+				return false
+			}
+			if !hit {
+				return true
+			}
+			return len(d) == len(got[i]) && rt.BytesEq(d, got[i])
+		}
+		rt.Assert("c17-each-read-is-before-or-after-the-write", rt.Or(is(ref), is(after)))
+	}
+}
